@@ -583,6 +583,7 @@ ClaimEnv(P, d, claim, symv, i) ==
         ELSE IF x = "#ctx" THEN CtxVal(d.ctxs[i])
         ELSE symv[x]])
 
+IsBoolSym(sy) == "bool" \in DOMAIN sy /\ sy.bool
 RECURSIVE Certificate(_, _)
 Certificate(P, claim) ==
     LET d == Declare(P.items, 1, <<>>, {}, <<>>, <<>>) IN
@@ -595,10 +596,11 @@ Certificate(P, claim) ==
         symOf(x) == claim.syms[CHOOSE k \in 1..Len(claim.syms) : claim.syms[k].name = x]
     IN  IF \E i \in 1..n : P.items[i].k = "instr" /\ cands[i] = {} THEN "no-match"
         ELSE IF declared # claimed THEN "symbol-table"
-        ELSE IF \E x \in declared : symOf(x).wide \/ ~symOf(x).int THEN "skip:wide-or-non-integer-symbol"
+        ELSE IF \E x \in declared : symOf(x).wide \/ (~symOf(x).int /\ ~IsBoolSym(symOf(x))) THEN "skip:wide-or-non-integer-symbol"
         ELSE
-    \* (a symbol's value carries its size: what reads a constant sees both)
-    LET symv == [x \in declared |-> IntV(symOf(x).v, IF "size" \in DOMAIN symOf(x) THEN symOf(x).size ELSE -1)] IN
+    \* (a symbol's value carries its size: what reads a constant sees both; a constant may also be a truth value)
+    LET symv == [x \in declared |-> IF IsBoolSym(symOf(x)) THEN BoolV(symOf(x).v = 1)
+                                    ELSE IntV(symOf(x).v, IF "size" \in DOMAIN symOf(x) THEN symOf(x).size ELSE -1)] IN
         \* directive arguments: evaluated under the claimed values at the claimed position
         IF \E i \in 1..n : HasArgExpr(P.items[i])
         THEN LET args == [i \in 1..n |-> IF HasArgExpr(P.items[i]) THEN Eval(P.items[i].e, ClaimEnv(P, d, claim, symv, i)).v
@@ -618,8 +620,10 @@ Certificate(P, claim) ==
         ELSE IF \E i \in 1..n : P.items[i].k = "align" /\ P.items[i].n = 0 THEN "align-zero"
         ELSE
     LET constBad(i) ==
-            LET x == AsInt(Eval(P.items[i].e, ClaimEnv(P, d, claim, symv, i)).v) IN
-            IF x.t = "big" THEN "skip"
+            LET raw == Eval(P.items[i].e, ClaimEnv(P, d, claim, symv, i)).v
+                x == AsInt(raw) IN
+            IF symv[d.names[i]].t = "bool" THEN (IF raw.t = "bool" /\ raw.v = symv[d.names[i]].v THEN "" ELSE "bad")
+            ELSE IF x.t = "big" THEN "skip"
             ELSE IF x.t = "int" /\ x.v = symv[d.names[i]].v /\ x.s = symv[d.names[i]].s THEN "" ELSE "bad"
         instrBad(i) ==
             LET e == Encoding(P, P.items[i].toks, cands[i], ClaimEnv(P, d, claim, symv, i)) IN
